@@ -384,6 +384,108 @@ func space(job int) {
 	}
 }
 
+// manyTracks: track numbers beyond one byte: 300 tracks of two events each,
+// selections and explicit port entries for tracks 0, 255, 256, 257 and 299.
+func manyTracks() {
+	const nt = 300
+	s := smf.NewSMF1()
+	s.TimeFormat = smf.MetricTicks(480)
+	type ev struct {
+		msg  []byte
+		tick int64
+	}
+	exp := make([][]ev, nt)
+	for tr := 0; tr < nt; tr++ {
+		var t smf.Track
+		for i := 0; i < 2; i++ {
+			m := midi.ControlChange(uint8(tr%16), uint8(tr/16), uint8(i)) // (channel, controller) identifies the track
+			d := uint32(tr%7 + i)
+			t.Add(d, m)
+			var tick int64 = int64(tr % 7)
+			if i == 1 {
+				tick += int64(tr%7 + 1)
+			}
+			exp[tr] = append(exp[tr], ev{m, tick})
+		}
+		t.Close(0)
+		s.Add(t)
+	}
+	var buf bytes.Buffer
+	s.WriteTo(&buf)
+	trackOf := func(b []byte) int { return int(b[0]&0x0F) + 16*int(b[1]) }
+	for _, sel := range [][]int{nil, {257}, {0, 255, 256, 299}} {
+		for _, mp := range []map[int]string{{-1: "A"}, {257: "B"}, {-1: "A", 256: "B", 299: "B"}} {
+			ctx.Eval()
+			vtime.Reset()
+			l := &log{}
+			ports := map[string]*fakeOut{"A": {name: "A", l: l, open: true}, "B": {name: "B", l: l, open: true}}
+			outs := map[int]drivers.Out{}
+			for k, v := range mp {
+				outs[k] = ports[v]
+			}
+			tr := smf.ReadTracksFrom(bytes.NewReader(buf.Bytes()), sel...)
+			var err error
+			c := engine.Catch(func() { err = tr.MultiPlay(outs) })
+			if c.Panicked || err != nil {
+				report(c.Sig+":many-tracks", []int{nt}, "many-tracks", false, sel, mp, fmt.Sprintf("MultiPlay failed: %v %s", err, c.Value))
+				continue
+			}
+			selected := func(t int) bool {
+				if len(sel) == 0 {
+					return true
+				}
+				for _, x := range sel {
+					if x == t {
+						return true
+					}
+				}
+				return false
+			}
+			portOf := func(t int) string {
+				if p, ok := mp[t]; ok {
+					return p
+				}
+				return mp[-1]
+			}
+			next := make([]int, nt)
+			bad := ""
+			for _, e := range l.evs {
+				t := trackOf(e.data)
+				switch {
+				case t >= nt || !selected(t) || portOf(t) == "":
+					bad = fmt.Sprintf("message of track %d played although not selected / not mapped", t)
+				case next[t] >= 2 || !bytes.Equal(exp[t][next[t]].msg, e.data):
+					bad = fmt.Sprintf("track %d: wrong or duplicated message % X", t, e.data)
+				case e.port != portOf(t):
+					bad = fmt.Sprintf("track %d went to port %s, mapped to %s", t, e.port, portOf(t))
+				case e.atUS < tr.SMF().TimeAt(exp[t][next[t]].tick):
+					bad = fmt.Sprintf("track %d message sent early", t)
+				}
+				if bad != "" {
+					break
+				}
+				next[t]++
+			}
+			if bad == "" {
+				for t := 0; t < nt; t++ {
+					want := 0
+					if selected(t) && portOf(t) != "" {
+						want = 2
+					}
+					if next[t] != want {
+						bad = fmt.Sprintf("track %d: %d of %d messages sent", t, next[t], want)
+						break
+					}
+				}
+			}
+			if bad != "" {
+				report("play:many-tracks", []int{nt}, "many-tracks", false, sel, mp, bad)
+			}
+			ctx.Add("many_track_plays", 1)
+		}
+	}
+}
+
 func main() {
 	ctx = engine.Start("C12", "exploration")
 	if ctx.ReplayPath != "" {
@@ -409,6 +511,7 @@ func main() {
 	}
 	ctx.Assume("order among different tracks at equal times is not judged; sysex events are neither required nor forbidden; scheduled time = SMF.TimeAt (checked against the exact tempo integral in C11)")
 	ctx.Jobs("play", len(counts), func(j int) { space(j) })
+	ctx.Jobs("many-tracks", 1, func(int) { manyTracks() })
 	ctx.Sample(map[string]interface{}{"events_per_track": []int{13, 7}, "pattern": "one-tick", "selection": "all", "port_map": "default->A, track 1->B"})
 	ctx.Guard(ctx.NontrivialCount() > 1000, "too few multi-track plays")
 	ctx.Finish("files of 1..3 tracks with per-track event counts from {0,1,2,3,7,13,20}, 5 tick patterns, with and without interspersed meta/tempo events; every subset of tracks as selection and every map {default, track 0..2} -> {absent, A, B}; MultiPlay on a virtual clock against a reference player; non-trivial = plays with at least two played tracks of more than one event")
